@@ -405,6 +405,7 @@ type vfE4Phase struct {
 	gates    []chan struct{}
 	gateOpen bool
 	onAof    func(point int)
+	logRecs  []vfLogRec // records of the log at the stop (set by the caller before the comparison; attribution only)
 	manualCompaction bool // C16: the caller drives the compaction goroutines itself (through onAof)
 	stats  map[string]int64
 }
@@ -808,6 +809,30 @@ func vfCompareRestart(p *vfE4Phase, before *vfSnapshot, exps []*vfE4Expect, rest
 				}
 				if rh.Depth != bh.Depth {
 					sig := relockSig(rk.Db, rk.Key)
+					if sig != "" && p.logRecs != nil && rh.Depth < bh.Depth {
+						// the known finding is about LOCK records that are in the log but are
+						// skipped / re-interpreted by the replay; a log that does not even contain
+						// one LOCK record per level of the hold is something else
+						net := 0
+						compacted := false
+						for _, r := range p.logRecs {
+							if r.File == "rewrite.aof" {
+								// a compaction has run: which records of re-locked holds it keeps is
+								// part of the known finding (C16)
+								compacted = true
+							}
+							if r.Db == rk.Db && r.Key == rk.Key && r.LockId == rh.LockId {
+								if r.Cmd == 1 {
+									net++
+								} else if r.Cmd == 2 {
+									net = vfMaxInt(net-1, 0)
+								}
+							}
+						}
+						if net < int(bh.Depth) && !compacted {
+							sig = ""
+						}
+					}
 					add("depth", sig, "%s L%d: re-entrant depth before the stop %d, after the restart %d (SUCCED lock replies for this hold: %d)", vfSnapKeyName(rk), vfLockIdIndex(rh.LockId), bh.Depth, rh.Depth, ex.Hold.Grants)
 				}
 				stats["must_holds_compared"]++
@@ -1104,6 +1129,7 @@ type vfLogRec struct {
 	LockId  [16]byte
 	AofFlag uint16
 	Flag    uint8
+	AofIndex, AofOffset uint32
 }
 
 // vfReadLogRecords decodes the records of every log file of dir in load order.
@@ -1125,8 +1151,15 @@ func vfReadLogRecords(dir string) []vfLogRec {
 			l := NewAofLock()
 			copy(l.buf, b[off:off+64])
 			_ = l.Decode()
-			out = append(out, vfLogRec{File: n, Cmd: l.CommandType, Db: l.DbId, Key: l.LockKey, LockId: l.LockId, AofFlag: l.AofFlag, Flag: l.Flag})
+			out = append(out, vfLogRec{File: n, Cmd: l.CommandType, Db: l.DbId, Key: l.LockKey, LockId: l.LockId, AofFlag: l.AofFlag, Flag: l.Flag, AofIndex: l.AofIndex, AofOffset: l.AofOffset})
 		}
 	}
 	return out
+}
+
+func vfMaxInt(a, b int) int {
+	if a > b {
+		return a
+	}
+	return b
 }
